@@ -29,7 +29,8 @@ RULE = ("argument definitions of the documented shape: 0-4 optional tag slots (1
 ASSUMPTIONS = [
     "the definition interpreter in this file (written from README.rst) is the oracle",
     "UNSPEC (not compared): omitted trailing required arguments, a tag slot filled twice, a "
-    "single string where a stringlist-only parameter is declared",
+    "single string where a stringlist-only parameter is declared, a parameter value that "
+    "differs from a permitted one in letter case only",
     "definitions without any required argument are outside the claim",
 ]
 FLOORS = {
@@ -71,7 +72,10 @@ def gen_definition(rng, idx):
             ptype = rng.choice(["string", "number", "stringlist", ["string", "stringlist"]])
             p = {"type": ptype}
             if ptype == "string" and rng.random() < 0.4:
-                p["values"] = ['"v1"', '"v2"']
+                p["values"] = rng.choice([['"v1"', '"v2"'], ['"High"', '"low"'],
+                                          ['"MOVE"', '"Copy"']])
+            if ptype == "number" and rng.random() < 0.3:
+                p["values"] = rng.choice([["10K", "2M"], ["1", "42"]])
             if len(tags) == 2 and rng.random() < 0.5:
                 p["valid_for"] = [tags[0]]
             slot["param"] = p
@@ -188,8 +192,12 @@ def interpret(d, argtoks, required):
                         unspec = unspec or "string-for-stringlist-parameter"
                     else:
                         return "REJECT", "parameter-type", None
-                if "values" in p and pk == "string" and ptoks[0].decode() not in p["values"]:
-                    return "REJECT", "parameter-value", None
+                if "values" in p and pk in ("string", "number") and \
+                        ptoks[0].decode() not in p["values"]:
+                    if ptoks[0].decode().lower() in [v.lower() for v in p["values"]]:
+                        unspec = unspec or "parameter-value-differs-in-case-only"
+                    else:
+                        return "REJECT", "parameter-value", None
                 expect["extra"][s["name"]] = ptoks
                 i += 1
             continue
@@ -213,7 +221,7 @@ def interpret(d, argtoks, required):
 def param_tokens(p, rng, good=True):
     t = p["type"]
     if "values" in p:
-        return [p["values"][0].encode()] if good else [b'"zz"']
+        return [rng.choice(p["values"]).encode()] if good else [b'"zz"']
     if t == "string":
         return [rng.choice(STR)]
     if t == "number":
@@ -292,7 +300,9 @@ def invalid_variants(d, use, rng):
             s = next((s for s in d["slots"] if ts[0].decode().lower() in s["tags"]), None)
             if s and s["param"]:
                 if "values" in s["param"]:
-                    out.append(flat(args[:i + 1] + [("string", [b'"zz"'])] + args[i + 2:]))
+                    bad = ("string", [b'"zz"']) if s["param"]["type"] == "string" \
+                        else ("number", [b"77"])
+                    out.append(flat(args[:i + 1] + [bad] + args[i + 2:]))
                 wrong = ("number", [b"5"]) if s["param"]["type"] != "number" \
                     else ("string", [b'"s"'])
                 out.append(flat(args[:i + 1] + [wrong] + args[i + 2:]))
